@@ -693,7 +693,7 @@ func check(args []string) int {
 		"instrumentation": map[string]any{
 			"key": filepath.Base(bi.Dir), "files": bi.Report.Files, "tick_sites": bi.Report.Ticks,
 			"map_range_sites": len(bi.Report.MapRanges), "chan_op_sites": len(bi.Report.ChanOps),
-			"go_sites": bi.Report.GoStmts, "unowned_sites": bi.Report.Unowned, "unbound_probe": bi.Report.UnboundProbe,
+			"go_sites": bi.Report.GoStmts, "sync_imports_shimmed": bi.Report.SyncImports, "unowned_sites": bi.Report.Unowned, "unbound_probe": bi.Report.UnboundProbe,
 			"package_vars": bi.Report.PackageVars,
 		},
 		"plain_validation": plainNote,
